@@ -5,6 +5,8 @@
  * ctime_r/gmtime_r/localtime_r, C08 slack. */
 #include "common.h"
 #include <time.h>
+#include <fcntl.h>
+#include <stdio_ext.h>
 
 static const char *g_cfg = "plain"; static int g_noslack, g_tier; static long g_skip_below;
 static int want(const char *p) { return !strcmp(g_prop, "ALL") || !strcmp(g_prop, p); }
@@ -153,6 +155,23 @@ static void t_gets(void) {
         check_strprod("gets_s", dest, dmax, r ? 0 : (e ? e : -1), r != NULL, (L > 0 || nl) ? exp : NULL, fit, fit ? (nl ? "line-fits" : "eof-terminated-line-fits") : "line-too-long", scn);
     }
 }
+/* gets_s when the read itself fails (stdin is a directory: EISDIR; stdin closed: EBADF): dest must still end up terminated / empty */
+static void t_gets_readerror(void) {
+    char scn[120]; int saved = dup(0);
+    for (int kind = 0; kind < 2; kind++) for (int bos = 0; bos < 2; bos++) {
+        size_t dmax = 12; int fd = -1;
+        if (kind == 0) { fd = open("/", O_RDONLY); if (fd < 0) continue; dup2(fd, 0); close(fd); } else close(0);
+        __fpurge(stdin); clearerr(stdin);        /* nothing buffered: the next read goes to the descriptor */
+        uint8_t *dest = mkdest(dmax); probes_reset(); char *r = (char *)-1; errno = 0; g_cur_fn = "gets_s";
+        g_shm->in_call = 1; FENCED(r = _gets_s_chk((char *)dest, dmax, bos ? dmax : BOS_UNKNOWN)); g_shm->in_call = 0;
+        int e = errno;
+        dup2(saved, 0); __fpurge(stdin); clearerr(stdin);
+        snprintf(scn, sizeof scn, "read error on stdin (%s), dmax %zu", kind == 0 ? "directory: EISDIR" : "closed: EBADF", dmax);
+        if (!g_fence.faulted && r != NULL && want("C06")) vio("C06", "gets_s", "success-although-read-failed", "read-error", "returned dest although the read failed", scn);
+        check_strprod("gets_s", dest, dmax, r ? 0 : (e ? e : -1), r != NULL, NULL, 0, "read-error", scn);
+    }
+    close(saved);
+}
 static void t_files(void) {
     FILE **fp = place_end(2, sizeof(FILE *)); errno_t rc;
     *fp = (FILE *)0x5a5a; probes_reset(); g_cur_fn = "tmpfile_s"; g_shm->in_call = 1; FENCED(rc = tmpfile_s(fp)); g_shm->in_call = 0; K[K_CALLS]++;
@@ -175,15 +194,15 @@ static void t_files(void) {
 static void body(void *a, long lo, long hi) {
     (void)a; (void)hi; g_skip_below = lo;
     /* five groups; a death inside group k restarts at group k+1 */
-    void (*grp[5])(void) = {t_getenv, t_strerror, t_time, t_gets, t_files};
-    for (long g = lo; g < 5; g++) { g_shm->cur = g; grp[g](); }
+    void (*grp[6])(void) = {t_getenv, t_strerror, t_time, t_gets, t_files, t_gets_readerror};
+    for (long g = lo; g < 6; g++) { g_shm->cur = g; grp[g](); }
     for (int i = 0; i < K_NUM; i++) __sync_fetch_and_add(&CTR(i), K[i]); __sync_fetch_and_add(&CTR(60), g_fp_checks); distinct_emit();
 }
 static void on_death(void *a, long idx, int status, int hung) {
-    (void)a; char key[200], what[300], w[300]; CTR(K_DEATH)++; static const char *gn[5] = {"getenv_s", "strerror_s", "asctime_s/ctime_s/gmtime_s/localtime_s", "gets_s", "tmpfile_s/fopen_s/freopen_s"};
+    (void)a; char key[200], what[300], w[300]; CTR(K_DEATH)++; static const char *gn[6] = {"getenv_s", "strerror_s", "asctime_s/ctime_s/gmtime_s/localtime_s", "gets_s", "tmpfile_s/fopen_s/freopen_s", "gets_s(read error)"};
     if (!g_shm->in_call) { fprintf(g_out, "{\"t\":\"harness_error\",\"idx\":%ld,\"status\":%d}\n", idx, status); fflush(g_out); return; }
-    snprintf(key, sizeof key, "%s|worker-%s|%s", idx < 5 ? gn[idx] : "?", hung ? "hang" : "death", hung ? "watchdog" : WIFSIGNALED(status) ? strsignal(WTERMSIG(status)) : "exit");
-    snprintf(what, sizeof what, "process %s inside a call of group %s (status %#x)", hung ? "hung" : "died", idx < 5 ? gn[idx] : "?", status);
+    snprintf(key, sizeof key, "%s|worker-%s|%s", idx < 6 ? gn[idx] : "?", hung ? "hang" : "death", hung ? "watchdog" : WIFSIGNALED(status) ? strsignal(WTERMSIG(status)) : "exit");
+    snprintf(what, sizeof what, "process %s inside a call of group %s (status %#x)", hung ? "hung" : "died", idx < 6 ? gn[idx] : "?", status);
     snprintf(w, sizeof w, "{\"harness\":\"misc\",\"cfg\":\"%s\",\"group\":%ld,\"replay\":\"misc --cfg %s\"}", g_cfg, idx, g_cfg);
     report(want("C01") ? "C01" : g_prop, key, what, w);
 }
@@ -201,7 +220,7 @@ int main(int argc, char **argv) {
     setlocale(LC_ALL, "C"); setenv("TZ", "UTC", 1); tzset();
     g_in = tmpfile(); if (!g_in) return 2; dup2(fileno(g_in), 0);
     arena_init(); fence_init(); shm_init(); probes_install(); fp_init();
-    int dummy = 0; run_supervised(body, on_death, &dummy, 0, 5, 30);
+    int dummy = 0; run_supervised(body, on_death, &dummy, 0, 6, 30);
     for (int i = 0; i < K_NUM; i++) emit_counter(KN[i], CTR(i));
     emit_counter("footprint_checks", CTR(60));
     fprintf(g_out, "{\"t\":\"end\"}\n"); fflush(g_out);
